@@ -78,3 +78,15 @@ Proof. apply fold_acc_bsum. intros acc i _. destruct (c i); ring. Qed.
 
 Lemma bsum_minus n f g : bsum n (fun i => f i - g i) = bsum n f - bsum n g.
 Proof. induction n as [|n IH]; [cbn; ring|]. rewrite !bsum_S, IH. ring. Qed.
+
+Lemma bsum_split m k f : bsum (m + k) f = bsum m f + bsum k (fun i => f (m + i)%nat).
+Proof.
+  induction k as [|k IH]; [rewrite Nat.add_0_r; cbn; ring|].
+  replace (m + S k)%nat with (S (m + k)) by lia. rewrite !bsum_S, IH. ring.
+Qed.
+
+Lemma bsum_prod a b f : bsum (a * b) f = bsum a (fun i => bsum b (fun j => f (i * b + j)%nat)).
+Proof.
+  induction a as [|a IH]; [reflexivity|].
+  replace (S a * b)%nat with (a * b + b)%nat by lia. rewrite bsum_split, IH, bsum_S. reflexivity.
+Qed.
